@@ -149,6 +149,9 @@ pub fn compile(p: &Plan) -> Script {
             Item::Gap => acts.push(Act::Gap),
         }
     }
+    // the other direction: what the endpoint itself sends names the live session, whatever its id
+    acts.push(Act::AppSendDatagram { hex: hex(b"outgoing-datagram") });
+    acts.push(Act::AppOpenUni { hex: hex(b"outgoing-uni-stream") });
     acts.push(Act::Gap);
     acts.push(Act::Sleep { us: 300_000 + (p.items.len() as u64 + 3) * p.base.app_pace_ms * 1_000 });
     acts.push(Act::CollectStops);
@@ -223,6 +226,27 @@ pub fn execute(plan: &Plan, trace: bool) -> Exec {
             }
         }
     }
+    // 3b. what the endpoint sent carries the live session's identifiers: datagram = quarter stream
+    // id + payload, uni stream = 0x54 + session id + payload
+    let own = own_sid(&plan.base);
+    let mut want_d = rc::varint(own / 4);
+    want_d.extend_from_slice(b"outgoing-datagram");
+    if !obs.rec.datagrams.iter().any(|d| *d == want_d) {
+        ex.violation(
+            "C17/outgoing-datagram-session",
+            format!("live session {own}: the endpoint's datagram should be quarter stream id {} + payload; the raw peer received {:?}", own / 4, obs.rec.datagrams.iter().map(|d| harness::hex(&d[..d.len().min(12)])).collect::<Vec<_>>()),
+        );
+        return ex;
+    }
+    let mut want_u = rc::wt_uni_header(own);
+    want_u.extend_from_slice(b"outgoing-uni-stream");
+    if !obs.rec.uni.values().any(|s| s.bytes == want_u) {
+        ex.violation(
+            "C17/outgoing-stream-session",
+            format!("live session {own}: the endpoint's uni stream should start with 0x54 + session id {own}; the raw peer recorded {:?}", obs.rec.uni.values().map(|s| harness::hex(&s.bytes[..s.bytes.len().min(12)])).collect::<Vec<_>>()),
+        );
+        return ex;
+    }
     // 4. the live session survived until its own close capsule
     let closed_ok = app.ended.len() >= 3 && app.ended.iter().all(|(_, e)| matches!(sut::app_closed(e), Some((c, _)) if c == plan.close_code as u64));
     if !closed_ok || !matches!(&obs.raw_close, RawClose::Application { code, .. } if *code == rc::H3_NO_ERROR) {
@@ -261,7 +285,7 @@ pub fn def() -> PropertyDef {
     PropertyDef {
         id: "C17",
         scenarios: vec![Box::new(Typed(C17Raw))],
-        rule: "Each run: a live session (id 0; against the server in a third of the runs 4, 8, 64, 256 or 1200, and then 0 is among the foreign ids) between the endpoint under test (server on even indexes, client on odd) and the scripted raw peer; 2-10 items interleaved in generated order: own uni / bidi streams and datagrams with tagged payloads, and uni streams, bidi streams and datagrams naming another well-formed session id (4, 8, and random ids needing 1-, 2-, 4- and 8-byte varints up to 4*(2^60-1)); then the session's close capsule. Oracle: the application never receives a foreign payload; all own streams arrive byte-exact and nothing else is handed over; paced own datagrams arrive; every foreign stream is answered with STOP_SENDING(WEBTRANSPORT_BUFFERED_STREAM_REJECTED = 0x3994bd84); the live session survives and ends with its capsule (H3_NO_ERROR on the wire). Ids of the other three stream classes are H3_ID_ERROR and are exercised under C12. Non-trivial = at least one foreign item; distinct = distinct plan hashes. Not a simulation target: the identifier algebra (SessionId/QStreamId/StreamId conversions over all 2^62 values) is pure arithmetic.",
+        rule: "Each run: a live session (id 0; against the server in a third of the runs 4, 8, 64, 256 or 1200, and then 0 is among the foreign ids) between the endpoint under test (server on even indexes, client on odd) and the scripted raw peer; 2-10 items interleaved in generated order: own uni / bidi streams and datagrams with tagged payloads, and uni streams, bidi streams and datagrams naming another well-formed session id (4, 8, and random ids needing 1-, 2-, 4- and 8-byte varints up to 4*(2^60-1)); then the session's close capsule. Finally the application itself sends a datagram and opens a uni stream, which must name the live session on the wire. Oracle: the application never receives a foreign payload; all own streams arrive byte-exact and nothing else is handed over; paced own datagrams arrive; every foreign stream is answered with STOP_SENDING(WEBTRANSPORT_BUFFERED_STREAM_REJECTED = 0x3994bd84); the live session survives and ends with its capsule (H3_NO_ERROR on the wire). Ids of the other three stream classes are H3_ID_ERROR and are exercised under C12. Non-trivial = at least one foreign item; distinct = distinct plan hashes. Not a simulation target: the identifier algebra (SessionId/QStreamId/StreamId conversions over all 2^62 values) is pure arithmetic.",
         assumptions: vec![
             "only session ids the wire format can carry are used; the algebra half of the property is pure and not claimed",
             "raw peer + reference codec are harness code; current-thread runtime; fault-free network",
